@@ -94,6 +94,12 @@ func init() {
 	add("c06-lenmin-mp4-push-dropped", "C06.lenmin", "format/mp4/boxes.go", "\tctx.path = append(ctx.path, pathEntry{typ: typ, data: parentData})\n", "", "no longer holds")
 	// C06.errfirst
 	add("c06-errfirst-defer-close", "C06.errfirst", "pkg/decode/decode.go", "\tr, err := fn(bbBR)\n\tif err != nil {", "\tr, err := fn(bbBR)\n\tdefer r.Close()\n\tif err != nil {", "FieldFormatReaderLen")
+	// C06.nilfield
+	add("c06-nilfield-mp4-moof", "C06.nilfield", "format/mp4/boxes.go",
+		"\tcase \"trun\": // Track Fragment Run\n\t\tm := &moof{}\n\t\t// moof is nil if there was no tfhd box before\n\t\tif t := ctx.currentTrafBox(); t != nil && t.moof != nil {",
+		"\tcase \"trun\": // Track Fragment Run\n\t\tm := &moof{}\n\t\tif t := ctx.currentTrafBox(); t != nil {", "moof")
+	add("c06-nilfield-matroska-track", "C06.nilfield", "format/matroska/matroska.go",
+		"\t\t\t\t\tif dc.currentTrack != nil && tagID == ebml_matroska.CodecIDID {", "\t\t\t\t\tif tagID == ebml_matroska.CodecIDID {", "currentTrack")
 	// C06.loopguard
 	add("c06-loopguard-fresh-detector", "C06.loopguard", "format/apple/bookmark/apple_bookmark.go", "d.SeekAbs(int64(baseOffset), decodeRecord)", "d.SeekAbs(int64(baseOffset), makeDecodeRecord())", "maker:")
 	add("c06-loopguard-detect-errorf", "C06.loopguard", "format/apple/bookmark/apple_bookmark.go", "func() { d.Fatalf(\"infinite recursion detected in record decode function\") },", "func() { d.Errorf(\"infinite recursion detected in record decode function\") },", "detect:")
